@@ -613,6 +613,144 @@ func c07Gated(cs c07Case) (ds []disc, evs []c07Ev, overlapped int) {
 	return
 }
 
+// ---- a multipart completion held at the storage boundary ------------------------------------
+
+// c07MpuSpec: upload U of key "mp" holds parts 1..Parts; a CompleteMultipartUpload is started and
+// held inside Backend.PutObject; while it is held the Rivals run (each to completion or until
+// blocked); then the completion is released. Sequential specification of an upload's life: of all
+// complete/abort requests at most one succeeds, and an acknowledged abort means the upload stored nothing.
+type c07MpuSpec struct {
+	Parts  int      `json:"parts"`
+	Rivals []string `json:"rivals"` // "abort" | "complete" | "part" | "list"
+}
+
+func c07MpuGated(k backends.Kind, spec c07MpuSpec, versioned bool) (ds []disc, overlapped int) {
+	hold := make(chan struct{})
+	reached := make(chan struct{})
+	var armed int32
+	var once sync.Once
+	st := backends.Must(k, backends.Options{PutHook: func(bucket, key string) {
+		if key == "mp" && atomic.LoadInt32(&armed) == 1 {
+			first := false
+			once.Do(func() { first = true })
+			if first {
+				close(reached)
+				<-hold
+			}
+		}
+	}})
+	defer st.Close()
+	if err := ensureBucket(st, "bk0"); err != nil {
+		panic(err)
+	}
+	fail := func(kind, f string, a ...interface{}) {
+		ds = append(ds, disc{Kind: kind, Detail: fmt.Sprintf("backend=%s rivals=%v: ", k, spec.Rivals) + fmt.Sprintf(f, a...)})
+	}
+	if versioned {
+		s3x.Do(st.Handler, &s3x.Req{Method: "PUT", Path: "/bk0", Query: s3x.Q("versioning", s3x.Bare), Body: []byte(`<VersioningConfiguration><Status>Enabled</Status></VersioningConfiguration>`)})
+	}
+	x := s3x.Do(st.Handler, &s3x.Req{Method: "POST", Path: "/bk0/mp", Query: s3x.Q("uploads", s3x.Bare)})
+	var d s3x.InitiateDoc
+	if x.Status != 200 || x.XML(&d) != nil {
+		panic("harness: initiate: " + x.String())
+	}
+	var sb strings.Builder
+	var want []byte
+	sb.WriteString("<CompleteMultipartUpload>")
+	for n := 1; n <= spec.Parts; n++ {
+		body := []byte(fmt.Sprintf("part-%d-%s", n, strings.Repeat("x", n*100)))
+		r := s3x.Do(st.Handler, &s3x.Req{Method: "PUT", Path: "/bk0/mp", Query: s3x.Q("partNumber", fmt.Sprint(n), "uploadId", d.UploadId), Body: body})
+		if r.Status != 200 {
+			panic("harness: part: " + r.String())
+		}
+		fmt.Fprintf(&sb, "<Part><PartNumber>%d</PartNumber><ETag>%s</ETag></Part>", n, xmlEsc(r.Header.Get("ETag")))
+		want = append(want, body...)
+	}
+	sb.WriteString("</CompleteMultipartUpload>")
+	completeBody := []byte(sb.String())
+	type res struct {
+		kind   string
+		status int
+	}
+	var mu sync.Mutex
+	var results []res
+	do := func(kind string) {
+		var r *s3x.Resp
+		switch kind {
+		case "complete":
+			r = s3x.Do(st.Handler, &s3x.Req{Method: "POST", Path: "/bk0/mp", Query: s3x.Q("uploadId", d.UploadId), Body: completeBody})
+		case "abort":
+			r = s3x.Do(st.Handler, &s3x.Req{Method: "DELETE", Path: "/bk0/mp", Query: s3x.Q("uploadId", d.UploadId)})
+		case "part":
+			r = s3x.Do(st.Handler, &s3x.Req{Method: "PUT", Path: "/bk0/mp", Query: s3x.Q("partNumber", "1", "uploadId", d.UploadId), Body: []byte("late part")})
+		default:
+			r = s3x.Do(st.Handler, &s3x.Req{Method: "GET", Path: "/bk0/mp", Query: s3x.Q("uploadId", d.UploadId)})
+		}
+		st := r.Status
+		if r.Panic != "" {
+			st = -1
+			fail("panic", "%s: %s at %s", kind, r.Panic, r.PanicSite)
+		}
+		mu.Lock()
+		results = append(results, res{kind, st})
+		mu.Unlock()
+	}
+	atomic.StoreInt32(&armed, 1)
+	var wg sync.WaitGroup
+	wg.Add(1)
+	go func() { defer wg.Done(); do("complete") }()
+	select {
+	case <-reached:
+	case <-time.After(20 * time.Second):
+		return dsc("inconclusive:gate-not-reached", "the completion never reached Backend.PutObject"), 0
+	}
+	for _, rv := range spec.Rivals {
+		done := make(chan struct{})
+		wg.Add(1)
+		go func(rv string) { defer wg.Done(); defer close(done); do(rv) }(rv)
+		select {
+		case <-done:
+			overlapped++
+		case <-time.After(150 * time.Millisecond):
+		}
+	}
+	close(hold)
+	fin := make(chan struct{})
+	go func() { wg.Wait(); close(fin) }()
+	select {
+	case <-fin:
+	case <-time.After(60 * time.Second):
+		return append(ds, dsc("did-not-complete", "with the gate open, the completion and its rivals did not all return within 60 s")...), overlapped
+	}
+	completes, aborts := 0, 0
+	for _, r := range results {
+		if r.kind == "complete" && r.status == 200 {
+			completes++
+		}
+		if r.kind == "abort" && r.status == 204 {
+			aborts++
+		}
+	}
+	g := s3x.Do(st.Handler, &s3x.Req{Method: "GET", Path: "/bk0/mp"})
+	switch {
+	case completes+aborts > 1:
+		fail("upload-finished-twice", "one upload was finished %d times: %d successful completes and %d successful aborts (%v); no sequential order of these requests allows that", completes+aborts, completes, aborts, results)
+	case completes+aborts == 0:
+		fail("upload-never-finished", "neither the completion nor any rival finished the upload: %v", results)
+	case aborts == 1 && g.Status != 404:
+		fail("aborted-upload-stored", "the abort was acknowledged but the object exists (%d, %d bytes)", g.Status, len(g.Body))
+	case completes == 1 && (g.Status != 200 || !bytes.Equal(g.Body, want)):
+		fail("multipart-assembly", "the completed object reads %d with %d bytes, the parts concatenate to %d bytes", g.Status, len(g.Body), len(want))
+	}
+	if versioned && completes >= 1 {
+		v := s3x.Do(st.Handler, &s3x.Req{Method: "GET", Path: "/bk0", Query: s3x.Q("versions", s3x.Bare, "prefix", "mp")})
+		if doc, err := s3x.ParseVersions(v.Body); err == nil && len(doc.Entries) != 1 {
+			fail("upload-stored-twice", "one multipart upload produced %d versions of the key", len(doc.Entries))
+		}
+	}
+	return
+}
+
 // ---- plumbing -------------------------------------------------------------------------------
 
 func c07Replay(check string, raw json.RawMessage) ([]disc, error) {
@@ -622,6 +760,18 @@ func c07Replay(check string, raw json.RawMessage) ([]disc, error) {
 	}
 	if err := json.Unmarshal(raw, &rep); err != nil {
 		return nil, err
+	}
+	if check == "mpu-gated" {
+		var mr struct {
+			Backend   backends.Kind `json:"backend"`
+			Spec      c07MpuSpec    `json:"spec"`
+			Versioned bool          `json:"versioned"`
+		}
+		if err := json.Unmarshal(raw, &mr); err != nil {
+			return nil, err
+		}
+		ds, _ := c07MpuGated(mr.Backend, mr.Spec, mr.Versioned)
+		return c07Filter(ds), nil
 	}
 	if check == "gated" {
 		ds, _, _ := c07Gated(rep.Case)
@@ -717,6 +867,7 @@ func c07Run(t *testing.T, c *evid.Collector) {
 		}
 		return report(c, check, c07Classify(cs, real), rp)
 	}
+	c07RunMpu(t, c, kinds)
 	nclients := evid.Scale(8, 16)
 	rapidRun(t, "histories", evid.Scale(250, 5000), func(rt *rapid.T) {
 		cs := c07Case{Backend: rapid.SampledFrom(kinds).Draw(rt, "backend"), Keys: rapid.IntRange(1, 3).Draw(rt, "keys")}
@@ -774,6 +925,32 @@ func c07Run(t *testing.T, c *evid.Collector) {
 		ds, evs, overlapped := c07Gated(cs)
 		if record("gated", cs, ds, evs, overlapped > 0, "gated-"+g.Slow) {
 			rt.Fatalf("C07 violated: %v", c07Filter(ds))
+		}
+	})
+}
+
+func c07RunMpu(t *testing.T, c *evid.Collector, kinds []backends.Kind) {
+	rapidRun(t, "mpu-gated", evid.Scale(40, 1500), func(rt *rapid.T) {
+		k := rapid.SampledFrom(kinds).Draw(rt, "backend")
+		spec := c07MpuSpec{Parts: rapid.IntRange(1, 3).Draw(rt, "parts")}
+		n := rapid.IntRange(1, 3).Draw(rt, "nrivals")
+		for i := 0; i < n; i++ {
+			spec.Rivals = append(spec.Rivals, rapid.SampledFrom([]string{"abort", "complete", "complete", "part", "list"}).Draw(rt, "rival"))
+		}
+		versioned := k == backends.Mem && rapid.Bool().Draw(rt, "versioned")
+		ds, overlapped := c07MpuGated(k, spec, versioned)
+		cs := map[string]interface{}{"backend": k, "spec": spec, "versioned": versioned}
+		var real []disc
+		for _, d := range ds {
+			if strings.HasPrefix(d.Kind, "inconclusive:") {
+				c.Inconclusive(d.Detail)
+				continue
+			}
+			real = append(real, d)
+		}
+		c.Case(evid.FP("mpu-gated", mustJSON(cs)), true, func() interface{} { return cs }, "check:mpu-gated", "backend:"+string(k), fmt.Sprintf("rivals-finished-while-held:%d", overlapped))
+		if report(c, "mpu-gated", real, cs) {
+			rt.Fatalf("C07 violated: %v", real)
 		}
 	})
 }
